@@ -197,6 +197,9 @@ func worldUDP(w *World) {
 	if maxPayload > 7000 {
 		maxPayload = 7000
 	}
+	if w.Net.Cfg().MSS < 64 && maxPayload > 600 {
+		maxPayload = 600 // byte-sized TCP segments on the work connection: keep the run within the step budget
+	}
 	var wg sync.WaitGroup
 	pubAddr, _ := simnet.ResolveUDPAddr("udp", public)
 	for u := 0; u < nusers; u++ {
@@ -329,7 +332,29 @@ func worldUDP(w *World) {
 		}
 	}
 	// 3. light load without faults: everything arrives
-	if !w.In.Faults && nusers*per <= 60 {
+	// "light load" also means that the offered bytes (about doubled by the message encoding) stay well below what the
+	// simulated path between client and server can carry (window / round-trip time): beyond that, drops are overload
+	light := !w.In.Faults && nusers*per <= 60
+	if cfg := w.Net.Cfg(); light && cfg.BaseLatency+cfg.Jitter > 0 {
+		rate := float64(cfg.Window) / (2 * (cfg.BaseLatency + cfg.Jitter).Seconds())
+		offered, first, last := 0.0, time.Duration(-1), time.Duration(0)
+		for _, res := range results {
+			for _, s := range res.sent {
+				offered += float64(len(s.payload))
+				if first < 0 || s.at < first {
+					first = s.at
+				}
+				if s.at > last {
+					last = s.at
+				}
+			}
+		}
+		if span := (last - first).Seconds() + 1; 2*offered/span > rate/4 {
+			light = false
+			w.Probe("udp.not_light_for_this_path")
+		}
+	}
+	if light {
 		w.Check("C03.light-load-delivery")
 		for u, res := range results {
 			for _, s := range res.sent {
